@@ -5,6 +5,7 @@ reduce/expand functions and the real lookups are executed for every setting (tag
 checked in exact integer arithmetic on the operations as the library decodes them; that decoding is the positional digit
 map proved for all codes in C11.  P obligations cover the code paths that do not depend on the table.
 """
+import itertools
 import json
 import os
 import time
@@ -119,6 +120,15 @@ def build(ctx):
                 bad["lookup_full"].append({"setting": tag, "found": f"{back.international_tables_number}:{back.choice}"})
         except Exception as e:  # noqa
             bad["lookup_full"].append({"setting": tag, "exception": repr(e)[:100]})
+        # the same list with the translations as a computation leaves them: an integer off, and a rounding error below the integer (numpy: -5e-17 % 1 == 1.0)
+        try:
+            noisy = [SymmetryOperation(np.array(s.rotation, dtype=float), np.asarray(s.translation, dtype=float) + sh_)
+                     for s, sh_ in zip(sg.symmetry_operations, itertools.cycle([np.array([-5e-17, 1.0, -1e-16]), np.array([2.0, -5e-17, 0.0]), np.array([-1.0, 3e-17, -5e-17])]))]
+            back = sgm.SpaceGroup.from_symmetry_operations(noisy)
+            if back.international_tables_number != num or sorted(int(s.integer_code) for s in back.symmetry_operations) != sorted(codes):
+                bad["lookup_full"].append({"setting": tag, "translations": "shifted by integers and by rounding errors of a few 1e-17", "found": f"{back.international_tables_number}:{back.choice}"})
+        except Exception as e:  # noqa
+            bad["lookup_full"].append({"setting": tag, "translations": "shifted by integers and by rounding errors of a few 1e-17", "exception": repr(e)[:100]})
         try:
             red = sg.reduced_symmetry_operations()
             latt = sg.latt
